@@ -568,6 +568,9 @@ func newGenTree(r *RNG, kt KeyType, val string, lim int) *genTree {
 		} else {
 			L = r.Intn(25)
 		}
+		if r.Chance(1, 10) {
+			L = r.Range(40, 140) // long keys: several inline limits deep, beyond any small fixed buffer
+		}
 		if L < 0 {
 			L = 0
 		}
@@ -583,7 +586,7 @@ func newGenTree(r *RNG, kt KeyType, val string, lim int) *genTree {
 			// a second run sharing a head with the first: sibling subtrees under one long path
 			h := r.Intn(len(g.runs[0]) + 1)
 			run = append(clone(g.runs[0][:h]), run...)
-			if len(run) > 28 {
+			if len(run) > 28 && L < 40 {
 				run = run[:28]
 			}
 		}
@@ -829,7 +832,7 @@ func genTrace(prop string, seed uint64, run int, o genOpts) *Trace {
 			}
 		case "topk", "botk":
 			n := g.m.Len()
-			s.N = pick(r, []int{0, 1, max(0, n-1), n, n + 1, n + 7, r.Intn(n + 2)})
+			s.N = pick(r, []int{0, 1, max(0, n-1), n, n + 1, n + 7, r.Intn(n + 2), r.Intn(n + 2), -1, -2, -3})
 		case "all", "back":
 			s.N = r.Intn(g.m.Len() + 2)
 		case "range":
